@@ -437,6 +437,15 @@ def c17(run, replay=None):
     pa = dict(tasks=[task(('debug', lit('<<a>>'))), task(('include', 'pong.rh'))])
     pb = dict(tasks=[task(('debug', lit('<<b>>'))), task(('include', 'ping.rh'))])
     cases.append(dict(files={"main.rh": dict(tasks=[INIT, task(('include', 'ping.rh'))]), "ping.rh": pa, "pong.rh": pb}, desc=dict(tree="mutual include")))
+    # many failing includes (each failure unwinds through the include machinery and is ignored) must not wear anything
+    # out: a valid include afterwards still works
+    failing = dict(tasks=[task(('debug', lit('<<in>>'))), task(('assert', [('eq', ('var', ['a']), ('str', 'nope'))]))])
+    deepf = dict(tasks=[task(('include', 'failing.rh'))])
+    okf = dict(tasks=[probe("ok.inc")])
+    many = task(('include', 'deepf.rh'), loop=[lit('i%d' % k) for k in range(40)])
+    many["ignore"] = True
+    cases.append(dict(files={"main.rh": dict(tasks=[INIT, many, task(('include', 'okf.rh')), probe("end")]), "deepf.rh": deepf, "failing.rh": failing, "okf.rh": okf},
+                      desc=dict(tree="40 ignored failing includes, then a valid one")))
     j = judge(run, cases, "include semantics")
     finish_cov(run, j,
                "include chains of depth 1-3 through files in different directories (a third of the files, the main script included, reached through symbolic links), includes under loop / when / ignore_errors, every file printing rash.path, rash.dir and a caller variable at start and end, "
